@@ -133,8 +133,8 @@ C06Run(c, o, vOK, tag, r0) ==
                 \/ q.items # <<>> /\ o.first.items = <<q.items[1]>>
                 \/ nd /\ \E par \in ParSpace(c) :
                            LET f == FirstOf(c, Eval(c, par))
-                           IN f.err = "none" /\ f.has /\ Len(o.first.items) = 1
-                              /\ VMatch(f.item, o.first.items[1])
+                           IN f.err = "none" /\ Len(o.first.items) = 1
+                              /\ VMatch(IF f.has THEN f.item ELSE VNull, o.first.items[1])
       existsOK ==
         /\ vOK => o.exists.err.cls = "none" /\ (o.exists.val <=> q.items # <<>>)
         /\ (o.exists.err.cls = "none" /\ o.exists.val) =>
@@ -152,11 +152,16 @@ C06Run(c, o, vOK, tag, r0) ==
                    LET m == MatchOf(c, Eval(c, par)) IN m.err = o.match.err.cls /\ m.val = o.match.val
       eomOK == IF c.path.pred THEN SameOutcome(o.eom, o.match) \/ nd
                ELSE SameOutcome(o.eom, o.exists) \/ nd
-      existsDev == ~existsOK /\ c.path.lax /\ o.exists.err.cls = "none" /\ o.exists.val
-                   /\ \E par \in ExmParSpace(c) : Eval(c, par).items # <<>>
+      (* an Exists the intended rules do not explain but a named deviation does *)
+      AllDevPars == DevParSpace(c) \cup ExmParSpace(c)
+      ExplainsExists(par) ==
+        LET x == ExistsOf(c, Eval(c, par)) IN x.err = o.exists.err.cls /\ x.val = o.exists.val
+      existsDev == ~existsOK /\ \E par \in AllDevPars : ExplainsExists(par)
   IN (IF firstOK THEN {} ELSE {"C06.first" \o tag})
-     \cup (IF existsOK THEN {} ELSE IF existsDev THEN {"known.unary-nonnum-exists.C06.exists" \o tag}
-                                ELSE {"C06.exists" \o tag})
+     \cup (IF existsOK THEN {}
+           ELSE IF existsDev
+           THEN {"known." \o d \o ".C06.exists" \o tag : d \in (CHOOSE par \in AllDevPars : ExplainsExists(par)).dev}
+           ELSE {"C06.exists" \o tag})
      \cup (IF matchOK THEN {} ELSE {"C06.match" \o tag})
      \cup (IF eomOK THEN {} ELSE {"C06.eom" \o tag})
 
@@ -203,6 +208,30 @@ C01Rec(rec, r0) ==
       ELSE IF ds = "bag" THEN {"bag.C01.s"}
       ELSE IF ds = "dev" THEN {"known." \o d \o ".C01.query.s" : d \in DevsOf(CaseOf(rec, TRUE), rec.s)} ELSE {})
 
+(* --- the record the specification itself would produce ------------------ *)
+(* Used by the MC_* models: the laws above, applied to what PathSem says    *)
+(* the five entry points return, must hold (the laws and the rules are      *)
+(* consistent, and the laws are not vacuous on the universe).               *)
+ErrRecOf(cls) ==
+  [cls |-> cls, v |-> cls = "verbose", x |-> cls \in {"verbose", "hard", "ctx"},
+   can |-> cls = "ctx", dl |-> FALSE]
+SpecEntryI(items, cls) == [items |-> items, val |-> FALSE, err |-> ErrRecOf(cls), bad |-> ""]
+SpecEntryB(val, cls)   == [items |-> <<>>, val |-> val, err |-> ErrRecOf(cls), bad |-> ""]
+SpecRun(c, r) ==
+  LET q == QueryOf(c, r)  f == FirstOf(c, r)  x == ExistsOf(c, r)  m == MatchOf(c, r)
+      xe == SpecEntryB(x.val, x.err)
+      me == SpecEntryB(m.val, m.err)
+  IN [query  |-> SpecEntryI(q.items, q.err),
+      first  |-> SpecEntryI(IF f.err # "none" THEN <<>> ELSE IF f.has THEN <<f.item>> ELSE <<VNull>>, f.err),
+      exists |-> xe, match |-> me,
+      eom    |-> IF c.path.pred THEN me ELSE xe,
+      polls  |-> r.st.polls, mutated |-> FALSE]
+SpecRec(c) ==      \* c without the silent field
+  LET cv == [c EXCEPT !.silent = FALSE]  cs == [c EXCEPT !.silent = TRUE]
+      r  == Eval(cv, Par0)
+  IN [c |-> [path |-> c.path, doc |-> c.doc, vars |-> c.vars, useTZ |-> c.useTZ, zone |-> c.zone],
+      v |-> SpecRun(cv, r), s |-> SpecRun(cs, r)]
+
 JudgeExec(rec) ==
   LET cv == CaseOf(rec, FALSE)
       cs == CaseOf(rec, TRUE)
@@ -212,4 +241,8 @@ JudgeExec(rec) ==
      \cup C05Run(rec.v, ".v") \cup C05Run(rec.s, ".s")
      \cup C06Run(cv, rec.v, vOK, ".v", r0) \cup C06Run(cs, rec.s, vOK, ".s", r0)
      \cup C08Pair(cv, rec.v, rec.s)
+
+(* verdict entries that are not violations *)
+IsRemark(cl) == \E p \in {"skip.", "bag.", "known."} : Len(cl) >= Len(p) /\ SubSeq(cl, 1, Len(p)) = p
+SpecSatisfiesLaws(c) == \A cl \in JudgeExec(SpecRec(c)) : IsRemark(cl)
 =============================================================================
